@@ -102,14 +102,11 @@ def v2(ctx, rid):
         if b is None:
             raise core.AnchorLost(t)
         key = 'header-validated|%s' % t
-        vs = [c for c in b.calls if HVALID in prog.resolve(c)]
-        okb = [core.ok_block(b, c) for c in vs]
-        okb = [x for x in okb if x is not None]
-        exits = [bb for (bb, k, _) in core.exit_defs(b) if k in ('ok', 'fwd', 'val') and bb in b.reachable()]
-        if not okb or any(e in b.reach_from([0], avoid_enter=okb) for e in exits):
+        SV = Summ(prog, lambda c: HVALID in prog.resolve(c))
+        if not SV.must(t):
             ctx.bad(rid, key, b.where(), 'the %s can accept a record header deserialised from file bytes without magic + header-CRC validation' % label)
         else:
-            ctx.ok(rid, key, vs[0].where(), 'every ok-return dominated by Header::validate ok')
+            ctx.ok(rid, key, b.where(), 'every ok-return preceded by Header::validate ok (in the body or in a helper it `?`-s)')
     # Header::validate = magic + checksum
     hv = prog.fns.get(HVALID)
     S1 = Summ(prog, lambda c: c.name == 'check_magic_byte')
